@@ -321,6 +321,14 @@ def run(rep, tier):
                     dflt.add(m0.group(1))
         rep.check(dflt == set(tabs) and len(dflt) == 2, "R12.7", "flags-default", "flags of both output tables start as 'o'", "csg_resample default flags are set for %s (flag-carrying tables: %s)" % (sorted(dflt), tabs), fm.loc())
         check_flag_match(rep, fm)
+        # csg_resample's output goes through Table's stream operator: 'on the input grid returns the input values' needs relative precision
+        from rules import C08 as _C08
+        tw = [f_ for f_ in F.find(T + "operator<<") if "Table" in f_.j["sig"]]
+        if len(tw) == 1:
+            rep.analysed(tw[0])
+            _C08.check_table_number_format(rep, tw[0], "R12.7")
+        else:
+            rep.broken("R12.7", "Table stream writer not found")
 
     # ---------------------------------------------------------------- R12.8 getInterval
     gi = F.one(T + "Spline::getInterval")
